@@ -95,7 +95,7 @@ def apply_fault(spec, cols):
         v = {"nan": float("nan"), "inf": float("inf"), "neginf": float("-inf"), "objnone": None, "objnan": float("nan")}[k]
         col = cols[f["col"]].copy()
         if k in ("objnone", "objnan"):
-            if spec.get("source", "frame") == "frame":
+            if spec.get("source", "frame") in ("frame", "df"):
                 col = col.astype(object)
             else:
                 v = float("nan")
@@ -609,7 +609,11 @@ def create(spec, yaw):
     kw.update(ra_name="ra", dec_name="dec")
     if not o["degrees"]:
         # the same input handed over in radians (the stored records have to be bit-identical)
-        cols = dict(cols, ra=np.deg2rad(cols["ra"]), dec=np.deg2rad(cols["dec"]))
+        def to_rad(col):      # a column of python objects stays one (None stays None)
+            if getattr(col, "dtype", None) == object:
+                return np.array([None if x is None else float(np.deg2rad(x)) for x in col], dtype=object)
+            return np.deg2rad(col)
+        cols = dict(cols, ra=to_rad(cols["ra"]), dec=to_rad(cols["dec"]))
         kw["degrees"] = False
     if spec["weights"]:
         kw["weight_name"] = "w"
